@@ -125,7 +125,7 @@ def run_shards(driver, stage_dir, work, ctxs, timeout, variant="plain", extra_en
     return results
 
 
-def aggregate(pid, tier, seed, results, stage_info, wall, rule, level):
+def aggregate(pid, tier, seed, results, stage_info, wall, rule, level, replay_mode=False):
     known = [k for k in load_known() if k["property"] == pid]
     known_keys = {k["key"]: k for k in known if k.get("status") == "known"}
     ev = dict(evaluations=0, distinct=set(), samples=[], counters={}, violations=[],
@@ -170,6 +170,10 @@ def aggregate(pid, tier, seed, results, stage_info, wall, rule, level):
                      % (pid, known_keys[key]["what"], key, len(vs)))
     replays = []
     rdir = os.path.join(VERIF, "evidence", "replays")
+    if os.path.isdir(rdir) and not replay_mode:
+        for fn in os.listdir(rdir):
+            if fn.startswith(pid + "-"):
+                os.unlink(os.path.join(rdir, fn))
     seen_keys = {}
     for v in unknown:
         key = v.get("key", "unclassified")
@@ -277,7 +281,7 @@ def main(argv=None):
         wall = time.time() - t0
         level = LEVELS.get(pid, "exploration")
         evidence, lines, unknown, ev = aggregate(pid, tier, seed, all_results, stage_info, wall,
-                                                 META["rule"], level)
+                                                 META["rule"], level, replay_mode=replay_case is not None)
         evidence["assumptions"] = META.get("assumptions", [])
         if META.get("exhaustive_key") and ev["counters"].get(META["exhaustive_key"]):
             evidence["coverage"]["exhaustive"] = True
